@@ -175,7 +175,11 @@ def run(tier, seed):
     ctx.sample({"direction": "A", "behaviour": states[len(states) // 3]})
 
     nt, ln = (40, 25) if quick else (400, 60)
-    traces = gen_trackers.mv_traces(rng, nt, ln) + gen_trackers.mv_traces(rng, 4 if quick else 30, 150 if quick else 400)
+    try:
+        traces = gen_trackers.mv_traces(rng, nt, ln) + gen_trackers.mv_traces(rng, 4 if quick else 30, 150 if quick else 400)
+    except gen_trackers.NotADict as e:
+        ctx.violation("trace.mv.accessors_return_dicts", "MultiValueTracker", str(e), None)
+        return ctx.finish()
     fails, res = tracecheck.validate("Trace_Trackers", traces, lambda t: len(t["ev"]), tag="c12tr")
     nev = sum(len(t["ev"]) for t in traces)
     ctx.add_tlc("trace validation Trace_Trackers (MultiValueTracker, GF(p))", res, kind="trace_validation",
